@@ -18,9 +18,8 @@ ob("VSsetclass", ["C07", "C20"], entry="h_VSsetclass", enforce="VSsetclass", tie
 # ----------------------------------------------------------------------------- vrw.c
 VRW = dict(unit="vrw_u.c", file="hdf/src/vrw.c",
            trusted=["Hseek: logs (aid, offset, origin), answers SUCCEED/FAIL", "HAatom_group/HAatom_object: harness-built instance or NULL"])
-ob("VSseek", ["C07", "C20"], entry="h_VSseek", enforce="VSseek", overflow=True, **VRW)
 # the byte offset is the true product: one record size per run (symbolic x symbolic is not tractable)
-for w in (6, 4096, 65535):
+for w in (1, 6, 4096, 65535):
     ob(f"VSseek_w{w}", ["C07", "C20"], entry="h_VSseek", enforce="VSseek", overflow=True,
        defines=[f"VSSEEK_W={w}", "VSSEEK_FIX"], **VRW)
 
